@@ -16,7 +16,25 @@ open SerfModel SerfModel.Check SerfModel.Atomic SerfModel.ClockUse
 structure St where
   ev : W := 1#64
   q : W := 1#64
+  /-- largest user-event / query time that went through the node (what the snapshot records) -/
+  lastE : W := 0#64
+  lastQ : W := 0#64
+  /-- monitor (implementation outputs only): largest time originated or processed so far -/
+  seenE : Nat := 0
+  seenQ : Nat := 0
   deriving Inhabited
+
+def maxW (a b : W) : W := if a < b then b else a
+
+/-- a locally originated message must carry a time above everything originated or processed before -/
+def monOriginate (seen : Nat) (impl : String) (what : String) : Option (String × String) :=
+  match impl.toNat? with
+  | some t => if t ≤ seen && seen > 0 then
+      some ("not-later-than-processed", s!"an originated {what} got time {t}, not above {seen} already originated or processed (also across a restart)")
+    else none
+  | none =>
+    if impl == "none" then some ("undelivered", s!"an originated {what} was accepted but not delivered locally (its time was not above the node's own cut-off)")
+    else none
 
 def originate (u : ClockUse) (c : W) : W × W :=
   let (c1, r) := runSeq (progs u) c .increment
@@ -62,18 +80,26 @@ def step (s : St) (op : List String) (impl : String) : LineOut St :=
   match op with
   | ["ue", _] =>
     let (c, lt) := originate SerfModel.Gen.ClockUse.userEvent s.ev
-    { state := { s with ev := c }, model := some (toString lt.toNat) }
+    { state := { s with ev := c, lastE := maxW s.lastE lt, seenE := max s.seenE (impl.toNat?.getD 0) },
+      model := some (toString lt.toNat), monitor := monOriginate s.seenE impl "user event" }
   | ["q", _] =>
     let (c, lt) := originate SerfModel.Gen.ClockUse.query s.q
-    { state := { s with q := c }, model := some (toString lt.toNat) }
+    { state := { s with q := c, lastQ := maxW s.lastQ lt, seenQ := max s.seenQ (impl.toNat?.getD 0) },
+      model := some (toString lt.toNat), monitor := monOriginate s.seenQ impl "query" }
   | ["inue", v] =>
     match v.toNat? with
-    | some n => { state := { s with ev := (runSeq (progs SerfModel.Gen.ClockUse.userEvent) s.ev (.witness (BitVec.ofNat 64 n))).1 }, model := some "ok" }
+    | some n => { state := { s with ev := (runSeq (progs SerfModel.Gen.ClockUse.userEvent) s.ev (.witness (BitVec.ofNat 64 n))).1,
+                                    lastE := maxW s.lastE (BitVec.ofNat 64 n), seenE := max s.seenE n }, model := some "ok" }
     | none => { state := s, model := some "bad-op" }
   | ["inq", v] =>
     match v.toNat? with
-    | some n => { state := { s with q := (runSeq (progs SerfModel.Gen.ClockUse.query) s.q (.witness (BitVec.ofNat 64 n))).1 }, model := some "ok" }
+    | some n => { state := { s with q := (runSeq (progs SerfModel.Gen.ClockUse.query) s.q (.witness (BitVec.ofNat 64 n))).1,
+                                    lastQ := maxW s.lastQ (BitVec.ofNat 64 n), seenQ := max s.seenQ n }, model := some "ok" }
     | none => { state := s, model := some "bad-op" }
+  | ["restart"] =>
+    -- Shutdown and Create on the same snapshot: the clocks start at 1 and witness the recorded times
+    { state := { s with ev := (runSeq (progs SerfModel.Gen.ClockUse.userEvent) 1#64 (.witness s.lastE)).1,
+                        q := (runSeq (progs SerfModel.Gen.ClockUse.query) 1#64 (.witness s.lastQ)).1 }, model := some "ok" }
   | "conc" :: _ =>
     if impl.startsWith "obs " then
       let body := String.ofList (impl.toList.drop 4)
